@@ -195,8 +195,10 @@ def ty_productions(prog, t, pos, out):
         ty_productions(prog, t[2], "cbret", out)
     elif k == "tr":
         out[pos + ":trait"] += 1
-        for _, mm, margs, mret in t[2]:
+        for mname, mm, margs, mret in t[2]:
             out["trait:" + ("&mut self" if mm else "&self")] += 1
+            if (t[1], mname) in getattr(prog, "trait_mattrs", {}):
+                out["trait:method disabled in C"] += 1
             for a in margs:
                 ty_productions(prog, a, "trarg", out)
             ty_productions(prog, mret, "trret", out)
@@ -217,6 +219,10 @@ def productions(res_list):
                 continue
             if st.get("rejected"):
                 out["rejected:utf8"] += 1
+                if any(pt[0] == "cb" for _, pt in st["m"].params):
+                    out["rejected:utf8 next to a callback"] += 1
+                if any(pt[0] in ("oslice", "ostr") or (pt[0] == "opt" and pt[1][0] in ("oslice", "ostr")) for _, pt in st["m"].params):
+                    out["rejected:utf8 next to an owned slice"] += 1
                 continue
             m, owner = st["m"], st["owner"]
             out["self:%s:%s" % (owner.kind, m.self_kind[0] if m.self_kind else "static")] += 1
@@ -241,7 +247,7 @@ REQUIRED_C = ["param:prim:u8", "param:prim:i64", "param:prim:f32", "param:prim:f
               "ret:&opaque", "ret:Option<prim>", "ret:DiplomatOption<prim>", "ret:result", "ret:ok:unit", "ret:err:unit", "ret:ordering",
               "ret:&str:utf8:static", "ret:&slice", "arm:ok", "arm:err", "arm:some", "arm:none", "destroy", "self:struct:val",
               "self:enum:val", "self:opaque:mut", "field:DiplomatOption<prim>", "field:struct",
-              "param:trait", "trait:&mut self", "trarg:struct", "trarg:Option<prim>", "trret:Option<prim>", "cbarg:Option<prim>", "cbret:Option<prim>", "param:callback:static"]
+              "param:trait", "trait:&mut self", "trarg:struct", "trarg:Option<prim>", "trret:Option<prim>", "cbarg:Option<prim>", "cbret:Option<prim>", "param:callback:static", "trait:method disabled in C"]
 
 
 def quota_gaps(prods, required):
@@ -307,7 +313,9 @@ def c03_leg(chk, tier, seed):
     def one(i):
         if i >= nprog:
             # the same histories through the C++ owning wrappers (unique_ptr, std::function with destructor, std::optional)
-            r = run_cpp_program(seed + 7500, i - nprog, "c03cpp", profile=prof, ncalls=45, stds=("c++17",))
+            # every other program: callbacks early in the parameter list next to several validated strings, so that calls rejected for
+            # invalid UTF-8 happen with a callable (and owned buffers) already in the wrapper's hands (seed C03-g)
+            r = run_cpp_program(seed + 7500, i - nprog, "c03cpp", profile=(dict(prof, utf8_bias=True, cb_bias=0.3) if i % 2 else prof), ncalls=45, stds=("c++17",))
             r["lang"] = "cpp"
             return r
         r = run_c_program(seed + 7000, i, "c03", profile=(dict(prof, traits=True, trait_prob=0.3) if i % 2 == 0 else prof), ncalls=45, valgrind=(i < (60 if thorough else 4)), keep=False)
